@@ -75,6 +75,21 @@ CHECKS = {'C01': {'category': 'other',
                  'shape grid; by induction on the number of calls this covers every interleaving of genuine, corrupted, replayed and out-of-order '
                  'messages.'}}
 
+CHECKS.update({
+ 'C03': dict(engine="LLSYM", category="other",
+   text="Partial (C buffering/padding/finalisation): the real C of hash_SHA2_template.c (SHA-224/256/384/512, SHA-512/224, SHA-512/256), SHA1.c, MD5.c, RIPEMD160.c and keccak.c is executed symbolically from LLVM IR with the compression function / Keccak-f uninterpreted; z3 decides that the digest / squeezed stream equals the standard's padding (MD strengthening with the bit length, pad10*1 with the domain byte), iteration and output serialisation for EVERY message of each length around all padding boundaries, over every segmentation into update()/absorb()/squeeze() calls of the grid, with copy()/digest()/update-after-digest/reset sequences.",
+   note="Compression functions and permutations are uninterpreted (KAT-tested primitives assumed); MD2/MD4 (compression inlined), BLAKE2, Poly1305 and the Python MAC/XOF glue (HMAC, CMAC, KMAC, cSHAKE, TupleHash, K12) are not yet part of this check; messages <= 2 blocks+1.  Replay compares the gcc-built C with hashlib.",
+   technique="bounded symbolic execution of the real C from LLVM IR (LLSYM) with uninterpreted compression + z3"),
+ 'C17': dict(engine="LLSYM", category="other",
+   text="Partial (encoded kernels): byte-precise memory model over the real C from LLVM IR; for all byte contents of every shape (lengths 0..2 blocks+1, non-multiples of the block size, in==out, out = in+-1/+-block, odd alignment, create/copy/use/destroy sequences) every load/store/memcpy/memset of raw_ecb/cbc/cfb/ofb/ctr/ocb.c, strxor.c, chacha20.c, pkcs1_decode.c, the SHA-2 template, SHA1.c, MD5.c, RIPEMD160.c and keccak.c stays inside a live object, nothing is freed twice or used after free, and stop/destroy releases every allocation; unsupported lengths come back as error codes.",
+   note="About a third of the 42 extension modules; cipher cores (AES/DES/Blowfish/CAST/ARC2/ARC4), GHASH, Poly1305, BLAKE2, Salsa20/scrypt, all EC/bignum code, allocator-failure paths and lengths above the grid are outside.  malloc is assumed to succeed.  Counterexamples are replayed on the gcc-built C with guard bytes, then under AddressSanitizer; a crash of the replay counts as confirmation.",
+   technique="bounded symbolic execution of the real C from LLVM IR (LLSYM) under a bounds/liveness-checked memory model + z3"),
+ 'C19': dict(engine="LLSYM", category="other",
+   text="Partial (sequential independence and input immutability at the C level): frame conditions of every encoded entry point -- for all byte contents only the object's own state and the designated outputs are written, never inputs/keys/IVs or module globals (no writable statics) -- and copy-independence of hash/XOF states.  Disjoint write sets by construction give non-interference of distinct objects, also under concurrent use; this is an argument from the frame conditions, not an exploration of thread schedules.",
+   note="Thread interleavings (2..16 threads), the curve-registry lock, first-use races, GIL release behaviour and Python-level argument immutability are outside this check; kernels as in C17.",
+   technique="frame-condition checking by bounded symbolic execution of the real C from LLVM IR (LLSYM) + z3"),
+})
+
 ENGINES = [
     dict(name="PYSYM", path="vlib/pysym", kind_free_text="bounded symbolic execution of the real Python source (AST-rewritten import, symbolic bytes/int proxies, fork by re-execution under a decision prefix) decided by z3"),
     dict(name="LLSYM", path="vlib/llsym", kind_free_text="symbolic interpreter of clang-14 LLVM IR (-O0 + mem2reg) of /repo/src/*.c into z3 terms, bounds-checked memory model, local path exploration with ite-merge at function returns; replay on the gcc-built C through ctypes"),
